@@ -4,7 +4,7 @@
    obs_equiv).  The 17k-line translator compiler/go_compiler.go is NOT modelled; it is compared
    with the VM and with Sref by running generated programs (stream c09.native). *)
 From Elk Require Import Base.GoSem Model.C06_Int Proofs.C06_Int Model.C09_Backends
-  Proofs.C09_Backends Proofs.C09_Fuel.
+  Proofs.C09_Backends Proofs.C09_Fuel Proofs.C09_Dispatch.
 From Coq Require Import ZArith List String.
 Import ListNotations.
 Open Scope Z_scope.
@@ -71,6 +71,46 @@ Theorem C09_S_fuel_independent : forall n m p r,
 Proof. exact S_fuel_mono. Qed.
 Print Assumptions C09_S_fuel_independent.
 
+(* dynamic dispatch of the reference interpreter (second generation of the fragment: user
+   classes, overriding, sends): an override always wins, whatever the ancestors define ... *)
+Theorem C09_dispatch_own : forall cs c k name m,
+  nth_error cs c = Some k -> assoc_nat name (c_meths k) = Some m -> dispatch cs c name = Some m.
+Proof. exact dispatch_own. Qed.
+Print Assumptions C09_dispatch_own.
+
+(* ... a class that does not define the name behaves like its superclass (in a well-formed
+   class table: superclasses precede subclasses) ... *)
+Theorem C09_dispatch_inherited : forall cs c k q name, wf_classes cs ->
+  nth_error cs c = Some k -> assoc_nat name (c_meths k) = None -> c_parent k = Some q ->
+  dispatch cs c name = dispatch cs q name.
+Proof. exact dispatch_inherited. Qed.
+Print Assumptions C09_dispatch_inherited.
+
+(* ... and a send runs exactly the method selected for the receiver's RUNTIME class, with
+   self :: arguments ++ locals as its frame; the interpreter keeps no call-site state, so the
+   classes seen earlier at the same call site cannot matter *)
+Theorem C09_send_by_runtime_class : forall n p env out r name args,
+  eval (S n) p env out (ESend r name args) =
+  rbind (eval n p env out r) (fun vr out0 =>
+    match vr with
+    | VObj c _ =>
+      match dispatch (p_classes p) c name with
+      | None => RStuck out0
+      | Some m =>
+        rbind (map_eval (fun o e1 => eval n p env o e1) args out0) (fun vs out1 =>
+          if negb (Nat.eqb (List.length vs) (m_params m)) then RStuck out1 else
+          rbind (map_eval (fun o e1 => eval n p [] o e1) (m_locals m) out1) (fun ls out2 =>
+            rbind (exec n p (vr :: vs ++ ls) out2 (m_body m)) (fun fl out3 =>
+              match fl with
+              | FReturn v => ROk v out3
+              | FNormal env'' => eval n p env'' out3 (m_ret m)
+              end)))
+      end
+    | _ => RStuck out0
+    end).
+Proof. exact send_unfold. Qed.
+Print Assumptions C09_send_by_runtime_class.
+
 (* ---- non-vacuity ---- *)
 Example C09_helpers_nonvacuous :
   helper OpAdd (Small (2 ^ 63 - 1)) (Small 1) = Ok (Big (2 ^ 63)) /\
@@ -88,9 +128,45 @@ Definition c09_demo : prog :=
      p_locals := [ EInt 3037000500 ];
      p_main := [ SPrint (EInspect (ECall 0 [EVar 0]));
                  SPrint (EInspect (EBin OpDiv (EInt 1) (EBin OpSub (EVar 0) (EVar 0))));
-                 SPrint (EStr "unreachable") ] |}.
+                 SPrint (EStr "unreachable") ];
+     p_classes := [] |}.
 Example C09_S_nonvacuous :
   Sref 50 c09_demo = SDone {| o_out := ["9223372037000250000"%string];
                               o_err := Some (zero_div_class, zero_div_msg); o_status := 1 |}
   /\ Sref 2 c09_demo = SOutOfFuel.
 Proof. vm_compute. split; reflexivity. Qed.
+
+(* class K0; def n0: String then "k0"; def n1: String then "<" + self.n0 + @k.inspect + ">" end
+   K1 < K0, K2 < K0, K3 < K1, K4 < K0 override n0 (K2 does not);
+   for x in [K0 K1 K2 K3 K3 K4 K4 K0]: println(x.n1) - a megamorphic call site inside n1 that sees
+   a fourth and a fifth class twice in a row; then dynamic inspect over six builtin classes *)
+Definition c09_m (r : expr) : meth := {| m_params := 0; m_locals := []; m_body := []; m_ret := r |}.
+Definition c09_classes : list cls :=
+  [ {| c_parent := None;
+       c_meths := [ (0, c09_m (EStr "k0"));
+                    (1, c09_m (ECat (EStr "<") (ECat (ESend (EVar 0) 0 []) (ECat (EInspect EField) (EStr ">"))))) ]%nat |};
+    {| c_parent := Some 0%nat; c_meths := [ (0%nat, c09_m (EStr "k1")) ] |};
+    {| c_parent := Some 0%nat; c_meths := [] |};
+    {| c_parent := Some 1%nat; c_meths := [ (0%nat, c09_m (EStr "k3")) ] |};
+    {| c_parent := Some 0%nat; c_meths := [ (0%nat, c09_m (EStr "k4")) ] |} ].
+Definition c09_demo2 : prog :=
+  {| p_meths := [];
+     p_locals := [ EList (map (fun c => ENew c (EInt (Z.of_nat c))) [0; 1; 2; 3; 3; 4; 4; 0]%nat);
+                   EList [EInt 1; EStr "x"; ESym "a"; EChar "c"; EChar "d"; EBool true; ENil; ENil];
+                   ENil ];
+     p_main := [ SForIn 2 (EVar 0) [ SPrint (ESend (EVar 2) 1 []) ];
+                 SForIn 2 (EVar 1) [ SPrint (EInspect (EVar 2)) ] ];
+     p_classes := c09_classes |}.
+Example C09_dispatch_nonvacuous :
+  wf_classes c09_classes /\
+  Sref 50 c09_demo2 =
+    SDone {| o_out := ["<k00>"; "<k11>"; "<k02>"; "<k33>"; "<k33>"; "<k44>"; "<k44>"; "<k00>";
+                       "1"; """x"""; ":a"; "`c`"; "`d`"; "true"; "nil"; "nil"]%string;
+             o_err := None; o_status := 0 |}.
+Proof.
+  split.
+  - intros c k q Ek Eq.
+    do 5 (destruct c as [|c]; [cbn in Ek; inversion Ek; subst k; cbn in Eq; inversion Eq; lia|]).
+    destruct c; discriminate Ek.
+  - vm_compute. reflexivity.
+Qed.
